@@ -4,7 +4,7 @@ PROPS[pid]["rules"] = [(rule id, floor of decided instances, selector over insta
 Floors are the numbers counted on the tree the rules were written against: a rule that suddenly
 matches fewer sites is a broken check (exit 2), never a silent pass.
 """
-from . import wf, dp, dt, he, gl, ts, ee, sl, wp, fs, ic, nb, im, rn, mp
+from . import wf, dp, dt, he, gl, ts, ee, sl, wp, fs, ic, nb, im, rn, mp, sp, ms, cp
 
 
 def has(*subs):
@@ -31,16 +31,97 @@ RULES = {
     "IM": {"run": im.run},
     "RN": {"run": rn.run},
     "MP": {"run": mp.run, "needs": ["cli"]},
+    "SP": {"run": sp.run},
+    "MS": {"run": ms.run},
+    "CP": {"run": cp.run},
 }
 
 BDD_T = ("BddNode", "BddPtr")
 SDD_T = ("BinarySDD", "SddOr", "SddAnd", "SddPtr")
 
 PROPS = {
+    "C01": {
+        "level": "other",
+        "rules": [("CP", 19, has("builder::bdd::", "repr::bdd::BddPtr", "cache::all_app", "cache::lru_app")),
+                  ("IM", 14, has("IM2", "IM3")), ("HE", 2, has("BddNode:scratch", "BddNode:fields")),
+                  ("DT", 7, has("BddPtr", "BottomUpBuilder::or:", "BottomUpBuilder::compose:")),
+                  ("FS", 2, has("or_lst", "and_lst"))],
+        "explanation": "Four structural clauses of BDD operation correctness. (a) complement-edge coherence: parity "
+                       "abstraction (CP) of condition_essential, cond_with_alloc incl. its per-call memo, smooth_helper, the "
+                       "BddPtr accessors/neg/is_neg against their contracts, and the two ITE-cache adapters; (b) history "
+                       "immunity: no &mut / store / transmute reaches an interned node, unsafe = RefCell::as_ptr only, arena "
+                       "only new+alloc (IM2, IM3), node fields Freeze except the two private cells (HE); (c) derived operators "
+                       "and/iff/xor/exists/negate/or/compose evaluate to their names' truth tables (DT); (d) list operations "
+                       "are seeded with the neutral element (FS). Not decided: Shannon expansion, the standard-triple "
+                       "rewriting in Ite::new, order handling — most of the property.",
+    },
+    "C03": {
+        "level": "other",
+        "rules": [("CP", 32, has("builder::sdd::", "repr::sdd::SddPtr")), ("DT", 7, has("SddPtr", "BottomUpBuilder::or:", "BottomUpBuilder::compose:")),
+                  ("IM", 14, has("IM2", "IM3")), ("HE", 4, has("BinarySDD:scratch", "SddOr:scratch", "BinarySDD:fields", "SddOr:fields"))],
+        "explanation": "Complement coherence of every place the SDD code touches subs/children of a possibly complemented node "
+                       "(and_sub_desc, and_prime_desc, and_cartesian, condition, SddPtr::{low,high,neg,is_neg}): operands of "
+                       "and/ite/..., elements of result nodes and traversal recursion denote the same thing for a regular and "
+                       "a complemented pointer; primes are never sign-dependent (CP). Derived operators ite/iff/xor/exists/"
+                       "negate/or/compose match their truth tables (DT). History immunity (IM, HE). Not decided: the vtree "
+                       "case analysis of and, cartesian-product shortcuts, conditioning's element recursion.",
+    },
+    "C06": {
+        "level": "other",
+        "rules": [("CP", 4, has("decision_nnf::")), ("TS", 7, has("TS-BAL")), ("DP", 3, has("topdown")),
+                  ("GL", 1, has("component-cache")), ("SP", 10, has("SP1"))],
+        "explanation": "Conditioning of a possibly complemented d-DNNF pointer is sign-coherent (CP on cond_helper: return "
+                       "contract, node-constructor parity, comparison parity); decide/pop balance on every path of topdown_h "
+                       "(TS-BAL: one pop after SAT/Unknown, none after UNSAT, none before the first decide); UNSAT and an "
+                       "initially unsatisfiable CNF map to the false constant (DP); one residual-hash key for cache lookup and "
+                       "insert, taken before the level's decisions (GL4); no public function leaves scratch set (SP1). Not "
+                       "decided: soundness of component caching by residual hash, that models are exactly the CNF's, "
+                       "path-wise decomposability.",
+    },
+    "C07": {
+        "level": "other",
+        "rules": [("DP", 8, has("unsmoothed_wmc", "evaluate")), ("CP", 10, has("fold", "bdd_fold_h", "BddPtr::low", "BddPtr::high")),
+                  ("MS", 13, None), ("FS", 7, has("fold", "wmc", "assignment_weight", "bb_ub", "marginal_map"))],
+        "explanation": "The generic count is the homomorphism Or->+, And->*, True->1, False->0, Lit->weight by polarity, and "
+                       "evaluate encodes an assignment as (low=!b, high=b) (DP); the folds hand effective children to the "
+                       "callback/recursion (CP on BddPtr::fold, bdd_fold_h, SddPtr::fold); the dual-polarity memo is written and "
+                       "read in the slot of the pointer's own polarity (MS); accumulators are seeded with the semiring "
+                       "identities (FS). Not decided: the numeric identity itself, order/vtree independence.",
+    },
+    "C08": {
+        "level": "other",
+        "rules": [("SL", 6, None), ("CP", 3, has("smooth_helper"))],
+        "explanation": "Level bookkeeping of smooth_helper: every node built is labelled with var_at_level(current) or with a "
+                       "node variable that a dominating test equates with it, children recurse one level down, smooth starts "
+                       "at level 0 (SL); the complemented arm is sign-coherent (CP); callers count on smooth(_, num_vars) "
+                       "(SL2). Not decided: equality of the count with the brute-force sum.",
+    },
+    "C10": {
+        "level": "proof",
+        "rules": [("SP", 17, None), ("IM", 9, has("IM5")), ("HE", 3, has("scratch-private"))],
+        "explanation": "Structural proof of 'every per-node scratch slot is empty again when a public call returns', for all "
+                       "call sequences: the only per-node mutable state is the two private RefCell fields (HE), the scratch "
+                       "cell is written only by set_scratch/clear_scratch and semantic_hash only by cached_semantic_hash (IM5); "
+                       "no externally reachable function is leaky (SP1, interprocedural must-pass-through over the call "
+                       "graph); what a BDD traversal descends below is marked, so the short-circuiting clear is complete "
+                       "(SP2); memo read/write types agree (SP3). Trusted: unwinding ignored (a panicking user callback leaves "
+                       "scratch set). Not decided: which answer is returned.",
+        "assumptions": ["panics/unwinding are not modelled", "call-graph resolution by rustc Instance::try_resolve; generic trait calls dispatch to all local impls"],
+    },
+    "C11": {
+        "level": "other",
+        "rules": [("CP", 4, has("cached_semantic_hash:sign", "check_cached_hash_and_neg")), ("IM", 3, has("IM5:semantic_hash")),
+                  ("NB", 33, None), ("IC", 4, has("create_semantic_hash_map"))],
+        "explanation": "Hash values follow the pointer's sign (complemented -> negate(hash of the regular pointer)) and a node "
+                       "found under the negated hash is returned complemented, in both semantic builders (CP-hash); the per-node "
+                       "hash cache has one writer (IM5); field arithmetic stays in range for every exported prime (NB); hash "
+                       "maps are sized by variable counts (IC). Not decided: that the hash is determined by the function "
+                       "(an algebraic identity over a random point), collision freedom, correctness of the semantic builders.",
+    },
     "C02": {
         "level": "other",
         "rules": [("GL", 2, has("GL3")), ("TS", 3, has("TS-OCC")), ("HE", 4, has(*BDD_T)),
-                  ("RN", 4, has("RN1", "RN2")), ("IM", 20, has("IM3", "IM4", "IM2"))],
+                  ("RN", 4, has("RN1", "RN2")), ("IM", 37, has("IM3", "IM4", "IM2"))],
         "explanation": "Structural necessary conditions of ROBDD canonicity: the unique table returns a stored node only "
                        "for an equal request (hash equal AND (by-hash OR structural equality), GL3) and must be able to "
                        "find every stored node (only occupied elements are re-inserted, re-homed with probe length 0, "
@@ -52,8 +133,8 @@ PROPS = {
     },
     "C04": {
         "level": "other",
-        "rules": [("RN", 8, has("RN3")), ("HE", 6, has(*SDD_T)), ("GL", 2, has("GL3")), ("TS", 3, has("TS-OCC")),
-                  ("IM", 10, has("IM4"))],
+        "rules": [("RN", 8, has("RN3")), ("HE", 7, has(*SDD_T)), ("GL", 2, has("GL3")), ("TS", 3, has("TS-OCC")),
+                  ("IM", 22, has("IM4"))],
         "explanation": "Order of SDD canonicalisation steps on every path to the unique tables (trim, compress, trim, sort, "
                        "sign-normalise, intern: RN3), Hash/Eq agreement of BinarySDD/SddOr/SddAnd and identity Hash/Eq of "
                        "SddPtr (HE), the shared unique-table rules (GL3, TS-OCC), nodes enter only through the tables (IM4). "
@@ -62,8 +143,8 @@ PROPS = {
     },
     "C05": {
         "level": "other",
-        "rules": [("DP", 22, has("compile_logical_expr", "compile_plan", "BottomUpPlan::")),
-                  ("FS", 8, has("compile_cnf", "or_lst", "and_lst", "from_dtree")), ("DT", 1, has("BottomUpBuilder::or:"))],
+        "rules": [("DP", 21, has("compile_logical_expr", "compile_plan", "BottomUpPlan::")),
+                  ("FS", 10, has("compile_cnf", "or_lst", "and_lst", "from_dtree")), ("DT", 1, has("BottomUpBuilder::or:"))],
         "explanation": "Every variant of LogicalExpr and BottomUpPlan is compiled by its namesake operation with operands in "
                        "order, a dtree becomes a conjunction of clause disjunctions of the literal's own label and polarity "
                        "with the empty clause false (DP; none of these arms is executed by the test-suite); empty-formula / "
@@ -73,7 +154,7 @@ PROPS = {
     },
     "C09": {
         "level": "other",
-        "rules": [("WP", 16, has("unit_prop")), ("TS", 5, has("TS-STK"))],
+        "rules": [("WP", 17, has("unit_prop")), ("TS", 5, has("TS-STK"))],
         "explanation": "Every pos/neg watch-list / occurrence-table access in unit_prop.rs is selected by the polarity of "
                        "the same literal that indexes it, insertions go to the literal's own table, reads keyed by one "
                        "literal use one side (WP); SATSolver::decide pushes exactly one state on non-UNSAT paths and none on "
@@ -83,7 +164,7 @@ PROPS = {
     },
     "C13": {
         "level": "other",
-        "rules": [("NB", 38, None), ("FS", 0, has("Polynomial"))],
+        "rules": [("NB", 33, None), ("FS", 0, has("Polynomial"))],
         "explanation": "Interval analysis of FiniteField::{new,negate,add,mul,sub} for each of the 7 exported primes with the "
                        "type invariant v in [0,P-1]: no u128 overflow/underflow (NB); every FiniteField literal is reduced "
                        "(NB-inv); subtraction borrows the modulus (NB-mod); polynomial coefficient writes are bounded by "
@@ -92,15 +173,15 @@ PROPS = {
     },
     "C14": {
         "level": "other",
-        "rules": [("IC", 9, hasnot("repr::cnf::Cnf::from_dimacs"))],
+        "rules": [("IC", 13, hasnot("repr::cnf::Cnf::from_dimacs"))],
         "explanation": "Dimension analysis (Index / Count / OneBased): every function called num_vars returns a count, every "
                        "num_vars field is initialised with a count, label-indexed table sizes are counts (IC). Not decided: "
                        "permutation-ness of heuristic orders, dtree cutsets, LCA / in-order index arithmetic.",
     },
     "C15": {
         "level": "other",
-        "rules": [("EE", 1, None), ("IC", 2, has("repr::cnf::")), ("WP", 2, has("repr::cnf::")),
-                  ("FS", 2, has("repr::cnf::", "assignment_weight"))],
+        "rules": [("EE", 1, None), ("IC", 5, has("repr::cnf::")), ("WP", 2, has("repr::cnf::")),
+                  ("FS", 3, has("repr::cnf::", "assignment_weight"))],
         "explanation": "Brute-force counting leaves its enumeration loop only when the assignment iterator is exhausted (EE); "
                        "Cnf's variable count is max label + 1 (IC); the residual hasher's pos/neg tables are selected and "
                        "indexed by the same literal (WP); counting accumulators are seeded with zero/one (FS). Not decided: "
@@ -109,7 +190,7 @@ PROPS = {
     },
     "C16": {
         "level": "proof",
-        "rules": [("GL", 8, hasnot("GL3", "component-cache"))],
+        "rules": [("GL", 8, hasnot("GL3", "component-cache")), ("CP", 2, has("IteTable:compl-flag"))],
         "explanation": "Complete structural argument for the first sentence: Lru::get returns Some(e.val) only under the "
                        "true edge of e.key == key (GL1); insert writes one Element{key,val,hash} of its own arguments into "
                        "the slot that get reads, grow re-inserts whole triples (GL2); the adapter's hash is a function of "
@@ -118,7 +199,8 @@ PROPS = {
     },
     "C17": {
         "level": "other",
-        "rules": [("DP", 11, has("from_sexpr", "VTreeSerializer", "from_dimacs")), ("IC", 1, has("from_dimacs"))],
+        "rules": [("DP", 11, has("from_sexpr", "VTreeSerializer", "from_dimacs")), ("IC", 1, has("from_dimacs")),
+                  ("CP", 6, has("serialize::"))],
         "explanation": "The s-expression translation and the vtree mirror map each variant to its namesake with children in "
                        "order (DP); DIMACS signs map Neg to false and Pos to true in both parsers (DP); the CNF parser "
                        "subtracts one from the 1-based DIMACS variable (IC OneBased -> Index). Not decided: model-level "
@@ -126,7 +208,7 @@ PROPS = {
     },
     "C18": {
         "level": "proof",
-        "rules": [("WF", 66, None)],
+        "rules": [("WF", 56, None)],
         "explanation": "Wrapper faithfulness of all 65 #[no_mangle] extern \"C\" exports: the value each wrapper "
                        "returns (or the one effect call it makes), reconstructed from its MIR as a term over its "
                        "parameters with marshalling stripped, equals the native operation and argument "
@@ -138,7 +220,7 @@ PROPS = {
     },
     "C19": {
         "level": "other",
-        "rules": [("MP", 6, None), ("SL", 3, has("count#", "entry"))],
+        "rules": [("MP", 6, None), ("SL", 6, None)],
         "explanation": "In each tool the counted / serialised diagram is the compiled one, compiled on a builder whose order "
                        "comes from the same formula; counts are taken on smooth(_, num_vars); weights are keyed by the "
                        "expression's own variable mapping (MP, SL2). Not decided: the printed numbers.",
